@@ -14,7 +14,7 @@ def norm_abort(line):
     return None
 
 
-def proj_values(with_info=False, with_pos=False, with_text=False, with_env=False, with_stmt=False):
+def proj_values(with_info=False, with_pos=False, with_text=False, with_env=False, with_stmt=False, consts_only=False):
     def f(line):
         a = norm_abort(line)
         if a:
@@ -44,6 +44,8 @@ def proj_values(with_info=False, with_pos=False, with_text=False, with_env=False
         if tag == "empty":
             return line
         if tag.startswith("E"):
+            if consts_only:
+                return " ".join(parts[:2] + [parts[-1]])       # only the digest of the constant entries
             return line if with_env else None
         if tag.startswith("S"):
             return (core.POS_RE.sub("@", line) if not with_pos else line) if with_stmt else None
